@@ -34,6 +34,24 @@ type ROp struct {
 	Seq uint32 `json:"seq,omitempty"`
 	Typ uint16 `json:"typ,omitempty"`
 	Ms  int    `json:"ms,omitempty"`
+	// re-entrant calls: Nest are made from inside the At-th ReassemblyComplete callback of this operation (or
+	// right after it returns, if it makes fewer callbacks); they are complete operations of their own
+	Nest []ROp `json:"nest,omitempty"`
+	At   int   `json:"at,omitempty"`
+}
+
+// flattenOps lists the operations in the order in which their effects on the Reassembler's state take place:
+// an operation has finished with the state (Put and CleanUp done, lock released) before its callbacks run, so
+// the calls made from inside a callback act on the state after it.
+func flattenOps(ops []ROp) []ROp {
+	var out []ROp
+	for _, op := range ops {
+		n := op.Nest
+		op.Nest, op.At = nil, 0
+		out = append(out, op)
+		out = append(out, flattenOps(n)...)
+	}
+	return out
 }
 
 // RCase is a reassembler history with its configuration.
@@ -65,6 +83,11 @@ type recStream struct {
 	cur  []string
 	grps [][]delivered // per op: groups delivered (for monitors)
 	lost []int
+	// re-entrant calls of the operation in progress
+	nest   []ROp
+	nestAt int
+	ncb    int
+	exec   func(ROp)
 }
 
 type delivered struct {
@@ -95,6 +118,17 @@ func (s *recStream) ReassemblyComplete(msgs []*auparse.AuditMessage) {
 	}
 	s.cur = append(s.cur, "g:"+strings.Join(parts, ","))
 	s.grps = append(s.grps, g)
+	s.ncb++
+	if s.nest != nil && s.ncb-1 == s.nestAt {
+		// calls made from inside this callback: each is recorded as an operation of its own
+		n := s.nest
+		s.nest = nil
+		saved := *s
+		for _, op := range n {
+			s.exec(op)
+		}
+		s.cur, s.grps, s.lost, s.ncb = saved.cur, saved.grps, saved.lost, saved.ncb
+	}
 }
 
 func (s *recStream) EventsLost(n int) {
@@ -124,8 +158,16 @@ func runReasmImpl(c RCase) (obs []opObs, panicMsg string) {
 		return nil, "constructor: " + err.Error()
 	}
 	start := time.Now()
-	for _, op := range c.Ops {
+	stop := ""
+	var exec func(op ROp)
+	exec = func(op ROp) {
+		if stop != "" {
+			return
+		}
+		idx := len(obs)
+		obs = append(obs, opObs{})
 		st.cur, st.grps, st.lost = nil, nil, nil
+		st.nest, st.nestAt, st.ncb = op.Nest, op.At, 0
 		var ret error
 		hasRet := false
 		t0 := int64(time.Since(start))
@@ -145,7 +187,8 @@ func runReasmImpl(c RCase) (obs []opObs, panicMsg string) {
 				buf[i] = 'x'
 			}
 			if ret != nil {
-				return obs, "valid raw message rejected: " + ret.Error()
+				stop = "valid raw message rejected: " + ret.Error()
+				return
 			}
 		case "rawbad":
 			// header corrupted in a way that depends on the id, never parseable
@@ -176,7 +219,20 @@ func runReasmImpl(c RCase) (obs []opObs, panicMsg string) {
 		if out == "" {
 			out = "-"
 		}
-		obs = append(obs, opObs{Out: out, Groups: st.grps, Lost: st.lost, T0: t0, T1: t1})
+		obs[idx] = opObs{Out: out, Groups: st.grps, Lost: st.lost, T0: t0, T1: t1}
+		// calls that no callback made (the operation made too few callbacks): right after it
+		left := st.nest
+		st.nest = nil
+		for _, n := range left {
+			exec(n)
+		}
+	}
+	st.exec = exec
+	for _, op := range c.Ops {
+		exec(op)
+	}
+	if stop != "" {
+		return obs, stop
 	}
 	return obs, ""
 }
@@ -184,6 +240,7 @@ func runReasmImpl(c RCase) (obs []opObs, panicMsg string) {
 // modelLines renders the case for the Lean driver. eager selects which end of
 // the clock bracket is used for real-time cases.
 func reasmModelLines(c RCase, obs []opObs, eager bool) []string {
+	c.Ops = flattenOps(c.Ops)
 	lines := []string{fmt.Sprintf("reasm new %d %d", c.Max, c.TimeoutNs)}
 	for i, op := range c.Ops {
 		var tp, tc int64
@@ -345,7 +402,60 @@ func genReasmCase(rng *rand.Rand, prop string, maxOps int) RCase {
 	if rng.Intn(4) == 0 {
 		c.Ops = append(c.Ops, ROp{K: []string{"maintain", "close"}[rng.Intn(2)]})
 	}
+	if prop == "C01" && rng.Intn(4) == 0 {
+		// calls made from inside a callback (still one goroutine, still one call history): some later operations
+		// are moved into a callback of an earlier one
+		for tries := 0; tries < 3 && len(c.Ops) > 3; tries++ {
+			i := rng.Intn(len(c.Ops) - 2)
+			if c.Ops[i].K == "rawbad" || c.Ops[i].Nest != nil {
+				continue
+			}
+			n := 1 + rng.Intn(4)
+			if i+1+n > len(c.Ops)-1 {
+				n = len(c.Ops) - 2 - i
+			}
+			if n <= 0 {
+				continue
+			}
+			nest := append([]ROp{}, c.Ops[i+1:i+1+n]...)
+			rest := append([]ROp{}, c.Ops[i+1+n:]...)
+			c.Ops = append(c.Ops[:i+1], rest...)
+			c.Ops[i].Nest, c.Ops[i].At = nest, rng.Intn(3)
+		}
+	}
 	return c
+}
+
+// reentrantBatchCases: a call whose clean-up evicts several events hands them to the stream one by one; from inside
+// one of those callbacks further calls are made whose own clean-ups evict several events too. Every message must
+// still arrive exactly once (what a call has evicted belongs to that call).
+func reentrantBatchCases() []RCase {
+	var out []RCase
+	for _, at := range []int{0, 1} {
+		for _, max := range []int{4, 8} {
+			for _, closer := range []string{"eoe", "maintain", "close"} {
+				id := 0
+				nid := func() int { id++; return id }
+				batch := func(base uint32) []ROp {
+					// an incomplete head and two complete events behind it, then the head's EOE: three events leave at once
+					return []ROp{{K: "push", ID: nid(), Seq: base, Typ: tSYSCALL}, {K: "push", ID: nid(), Seq: base + 1, Typ: 1112},
+						{K: "push", ID: nid(), Seq: base + 2, Typ: 1112}, {K: "push", ID: nid(), Seq: base, Typ: tEOE}}
+				}
+				outer := batch(10)
+				inner := batch(20)
+				switch closer {
+				case "maintain":
+					inner = append(inner, ROp{K: "maintain"})
+				case "close":
+					inner = append(inner, ROp{K: "push", ID: nid(), Seq: 30, Typ: tSYSCALL}, ROp{K: "push", ID: nid(), Seq: 31, Typ: tPATH}, ROp{K: "close"})
+				}
+				outer[3].Nest, outer[3].At = inner, at
+				ops := append(outer, ROp{K: "push", ID: nid(), Seq: 40, Typ: tSYSCALL}, ROp{K: "close"})
+				out = append(out, RCase{Max: max, TimeoutNs: int64(time.Hour), InWindow: true, Base: 0, Ops: ops})
+			}
+		}
+	}
+	return out
 }
 
 // genReasmRealCase builds a C19 history with real sleeps.
@@ -438,6 +548,7 @@ type evTrack struct {
 var reasmSibling string
 
 func reasmMonitor(c RCase, obs []opObs, prop string) (clause string) {
+	c.Ops = flattenOps(c.Ops)
 	// The family shares one monitor. Only a failed clause of the property being checked is a
 	// monitor violation of that property; failed clauses of sibling properties are remembered in
 	// reasmSibling (diagnostics) and otherwise left to that property's own check.
@@ -711,6 +822,7 @@ func reasmMonitor(c RCase, obs []opObs, prop string) (clause string) {
 // reasmNontrivial: the history has an overflow eviction, a late arrival, a
 // duplicate after eviction, or an EOE for a buffered event.
 func reasmNontrivial(c RCase, obs []opObs) (bool, []string) {
+	c.Ops = flattenOps(c.Ops)
 	var tags []string
 	seen := map[uint32]bool{}
 	deliveredSeq := map[uint32]bool{}
@@ -824,7 +936,7 @@ func runReasmCase(ctx *Ctx, m *common.Model, c RCase, idx int) *common.Violation
 	ctx.Res.ModelLines += len(rep)
 	for i := range rep {
 		if rep[i] != impl[i] {
-			return &common.Violation{Kind: "correspondence", Clause: fmt.Sprintf("Model.Reasm.step disagrees with the Reassembler at op %d (%s)", i, c.Ops[i].K),
+			return &common.Violation{Kind: "correspondence", Clause: fmt.Sprintf("Model.Reasm.step disagrees with the Reassembler at op %d (%s)", i, flattenOps(c.Ops)[i].K),
 				Input: c, Impl: strings.Join(impl, " | "), Model: strings.Join(rep, " | "), Case: idx, Note: siblingNote(sibling)}
 		}
 	}
@@ -908,7 +1020,7 @@ func reasmFamily(ctx *Ctx) error {
 			if i+1 < len(rep) {
 				ml = rep[i+1]
 			}
-			fmt.Printf("op %d %+v impl=%s model=%s\n", i, rp.Input.Ops[i], obs[i].Out, ml)
+			fmt.Printf("op %d %+v impl=%s model=%s\n", i, flattenOps(rp.Input.Ops)[i], obs[i].Out, ml)
 		}
 		fmt.Println("monitor:", reasmMonitor(rp.Input, obs, ctx.Prop))
 		return nil
@@ -947,6 +1059,13 @@ func reasmFamily(ctx *Ctx) error {
 		}
 	}
 
+	if ctx.Prop == "C01" {
+		for _, c := range reentrantBatchCases() {
+			res.Hist("re-entrant batch")
+			report(runReasmCase(ctx, m, c, idx), c)
+			idx++
+		}
+	}
 	// systematic block: every record type at which the library's treatment of the type changes
 	for _, c := range reasmTypeCases() {
 		if res.NumViolations() >= 5 {
